@@ -4,4 +4,4 @@
 Require Extraction.
 Require Import ExtrOcamlBasic.
 Require Import Model.Base Model.Ir Model.UniqueVars Spec.ScopeSpec.
-Separate Extraction Base.base_roots UniqueVars.ensure_unique_variables UniqueVars.occs UniqueVars.lift_name UniqueVars.ssa_key UniqueVars.ssa_key_old ScopeSpec.resolve_def ScopeSpec.branch_closed.
+Separate Extraction Base.base_roots UniqueVars.ensure_unique_variables UniqueVars.occs UniqueVars.lift_name UniqueVars.ssa_key UniqueVars.ssa_key_old UniqueVars.ssa_key_with UniqueVars.key_format_ok UniqueVars.ident_ok UniqueVars.ident_char UniqueVars.build_table UniqueVars.get_declaration_of ScopeSpec.resolve_def ScopeSpec.branch_closed.
